@@ -138,6 +138,13 @@ def parseModeRes (s : String) : ModeRes :=
   | "panic" :: w => .panic (" ".intercalate w)
   | _ => .other s
 
+/-- what a mode result says about the further elements that share the options clause
+    (`n=<k>` and, when one of them differs from the first, `DIFF <i>:<tree>,r=<rest>`) -/
+def sharedPart (s : String) : String :=
+  " ".intercalate ((words s).dropWhile (fun w => !w.startsWith "n="))
+
+def hasDiff (s : String) : Bool := (words s).contains "DIFF"
+
 /-- split `S=… L=… U=… C=…` -/
 def splitModes (ans : String) : Option (String × String × String × String) :=
   match ans.splitOn " L=" with
@@ -180,7 +187,8 @@ def specC21 (st : Option Schema) (line ans : String) : Option Schema × String :
       -- (1) lenient = strict
       match parseModeRes l with
       | .ok lTree lRest lD lJ =>
-        if lTree != sTree || lD != sD || lJ != sJ then (st, "fails lenient-differs-from-strict " ++ lTree)
+        if lTree != sTree || lD != sD || lJ != sJ || sharedPart l != sharedPart s then
+          (st, "fails lenient-differs-from-strict " ++ lTree ++ " " ++ sharedPart l)
         else if lRest != sRest then (st, "fails lenient-rest-differs-from-strict " ++ lRest)
         else
           -- (2) unlinked
@@ -198,7 +206,9 @@ def specC21 (st : Option Schema) (line ans : String) : Option Schema × String :
                   match parseModeRes c with
                   | .ok cTree cRest cD cJ =>
                     if cRest != "-" then (st, "skip") else
-                    if uTree != cTree then
+                    if hasDiff u then
+                      (st, "fails unlinked-elements-of-one-clause-differ " ++ sharedPart u)
+                    else if uTree != cTree then
                       (st, "fails unlinked-half-populated[" ++
                         (if sameUpToEmptyMessages uTree cTree then "empty-intermediate-message" else "other") ++
                         "] got=" ++ uTree ++ " consumed-only=" ++ cTree)
@@ -640,6 +650,8 @@ def specC20 (st : Option Schema) (line ans : String) : Option Schema × String :
       match impl with
       | .ok _ r _ _ =>
         if r != "-" then (st, "fails uninterpreted-left-after-success " ++ r) else
+        -- every element that shares the options clause is interpreted from the same statements
+        if hasDiff ans then (st, "fails elements-of-one-clause-differ " ++ sharedPart ans) else
         match cmpRef ref impl with
         | .agree => (st, "holds")
         | .skip _ => (st, "skip")
